@@ -237,6 +237,7 @@ noncomputable instance instRFunXR : RFun XR where
   ln := lift RFun.ln
   log10 := lift RFun.log10
   log2 := lift RFun.log2
+  exp2 := lift RFun.exp2
   sqrt := lift RFun.sqrt
   sin := lift RFun.sin
   cos := lift RFun.cos
